@@ -148,7 +148,14 @@ func backpressureHook(s *Sim) {
 		}
 		if d := h2c[i].sentOK - h2c[i].recvStarted; d > 0 {
 			s.stats.Probes["C20-relevant"]++
-			limit := 2 // one buffered in the channel + one the client stream holds (peeked)
+			// one buffered in the channel; plus one the client stream itself may
+			// have taken out of the channel and holds for the next receive: a
+			// frame it looked at in Header(), or (single-response methods) the
+			// frame it looks at to make sure no second response follows
+			limit := 1
+			if h2c[i].hdrCalls > 0 || rs.r.Kind == KClientStream {
+				limit = 2
+			}
 			if d > limit {
 				rs.bpReported = true
 				s.violate("C20", fmt.Sprintf("C20|inproc|%s|handler-ahead-by-%s", kindNames[rs.r.Kind], aheadWord(d)), i,
